@@ -144,6 +144,8 @@ def validate_sparse(seed=0, rounds=60):
         _same('vstack zero', sp.vstack([r, zr]), M.vstack([m, zm]))
         _same('vstack float32', sp.vstack([r, zr], format='csr', dtype=np.float32), M.vstack([m, zm], format='csr', dtype=np.float32))
         _same('astype float32', r.astype(np.float32), m.astype(np.float32))
+        _same_dense('matmul', (r @ r.T).toarray(), (m @ m.T).toarray())
+        _same_dense('matmul csc', (r.tocsc() @ r.T.tocsr()).toarray(), (m.tocsc() @ m.T.tocsr()).toarray())
         zr, zm = sp.csr_matrix((nr, 2)), M.csr_matrix((nr, 2))
         _same('hstack zero', sp.hstack([r, zr]), M.hstack([m, zm]))
         # coo construction from triples with duplicates / dense
